@@ -1,7 +1,7 @@
 import Verif.Props.C12
 open Verif.Props.C12
 #print axioms chunk_invariant
-#print axioms chunk_invariant'
+#print axioms chunk_invariant_same
 #print axioms empty_chunks_irrelevant
 #print axioms wreach_inv
 #print axioms writer_safe
